@@ -1,6 +1,7 @@
 package main
 
 import (
+	"strconv"
 	"sync"
 	"fmt"
 	"go/ast"
@@ -454,7 +455,127 @@ func (e *Engine) funcSyntax(fn *ssa.Function) ast.Node {
 }
 
 // loopsInSource lists for/range statements of a function in source order (excluding nested func literals).
+// constTripCount: for a loop of the form "for i := a; i < b; i++ { ... }" (also <=, !=, i += 1) with integer literals a
+// and b, a body that never assigns i and at most 16 turns: the number of turns; 0 otherwise. Such a loop is unrolled by
+// the engine instead of being cut at its header, and takes no loop ordinal, so that turning "f(); f(); f(); f()" into a
+// counted loop (or back) needs no invariant and does not shift the loop sections of a contract.
+func constTripCount(st ast.Stmt) int {
+	fs, ok := st.(*ast.ForStmt)
+	if !ok || fs.Init == nil || fs.Cond == nil || fs.Post == nil {
+		return 0
+	}
+	as, ok := fs.Init.(*ast.AssignStmt)
+	if !ok || as.Tok != token.DEFINE || len(as.Lhs) != 1 || len(as.Rhs) != 1 {
+		return 0
+	}
+	iv, ok := as.Lhs[0].(*ast.Ident)
+	if !ok {
+		return 0
+	}
+	lit := func(e ast.Expr) (int, bool) {
+		bl, ok := e.(*ast.BasicLit)
+		if !ok || bl.Kind != token.INT {
+			return 0, false
+		}
+		n, err := strconv.Atoi(bl.Value)
+		return n, err == nil
+	}
+	a, ok := lit(as.Rhs[0])
+	if !ok {
+		return 0
+	}
+	be, ok := fs.Cond.(*ast.BinaryExpr)
+	if !ok {
+		return 0
+	}
+	if x, ok := be.X.(*ast.Ident); !ok || x.Name != iv.Name {
+		return 0
+	}
+	b, ok := lit(be.Y)
+	if !ok {
+		return 0
+	}
+	n := 0
+	switch be.Op {
+	case token.LSS, token.NEQ:
+		n = b - a
+	case token.LEQ:
+		n = b - a + 1
+	default:
+		return 0
+	}
+	switch ps := fs.Post.(type) {
+	case *ast.IncDecStmt:
+		if x, ok := ps.X.(*ast.Ident); !ok || x.Name != iv.Name || ps.Tok != token.INC {
+			return 0
+		}
+	case *ast.AssignStmt:
+		if len(ps.Lhs) != 1 || len(ps.Rhs) != 1 || ps.Tok != token.ADD_ASSIGN {
+			return 0
+		}
+		if x, ok := ps.Lhs[0].(*ast.Ident); !ok || x.Name != iv.Name {
+			return 0
+		}
+		if one, ok := lit(ps.Rhs[0]); !ok || one != 1 {
+			return 0
+		}
+	default:
+		return 0
+	}
+	if n < 1 || n > 16 {
+		return 0
+	}
+	bad := false
+	ast.Inspect(fs.Body, func(x ast.Node) bool {
+		switch y := x.(type) {
+		case *ast.AssignStmt:
+			for _, l := range y.Lhs {
+				if id, ok := l.(*ast.Ident); ok && id.Name == iv.Name {
+					bad = true
+				}
+			}
+		case *ast.IncDecStmt:
+			if id, ok := y.X.(*ast.Ident); ok && id.Name == iv.Name {
+				bad = true
+			}
+		case *ast.UnaryExpr:
+			if id, ok := y.X.(*ast.Ident); ok && id.Name == iv.Name && y.Op == token.AND {
+				bad = true
+			}
+		case *ast.ForStmt, *ast.RangeStmt, *ast.FuncLit, *ast.BranchStmt, *ast.LabeledStmt:
+			bad = true // nested loops, closures, break / continue / goto: not unrolled
+		}
+		return !bad
+	})
+	if bad {
+		return 0
+	}
+	return n
+}
+
+// countedLoops: the loops of a function that are unrolled (constTripCount > 0).
+func countedLoops(n ast.Node) []ast.Stmt {
+	var out []ast.Stmt
+	for _, s := range allLoopsInSource(n) {
+		if constTripCount(s) > 0 {
+			out = append(out, s)
+		}
+	}
+	return out
+}
+
+// loopsInSource: the loops that take a loop ordinal (all loops but the counted ones), in source order.
 func loopsInSource(n ast.Node) []ast.Stmt {
+	var out []ast.Stmt
+	for _, s := range allLoopsInSource(n) {
+		if constTripCount(s) == 0 {
+			out = append(out, s)
+		}
+	}
+	return out
+}
+
+func allLoopsInSource(n ast.Node) []ast.Stmt {
 	var out []ast.Stmt
 	if n == nil {
 		return nil
